@@ -84,8 +84,8 @@ type idxIn struct {
 
 // observation: 0 document, 1 error, 2 panic
 type obsT struct {
-	Kind int   `json:"kind"`
-	Doc  *docT `json:"doc,omitempty"`
+	Kind int    `json:"kind"`
+	Doc  *docT  `json:"doc,omitempty"`
 	Msg  string `json:"msg,omitempty"`
 }
 
@@ -419,7 +419,9 @@ func corpusGen(w *gal.Writer) {
 	r := gal.NewRand(4242)
 	img := "sha256:" + hexOf(r, 64)
 	l1, l2 := sha(r), sha(r)
-	sum := func(b byte) []byte { return []byte{b, 0x0d, 0xe6, 0xf4, 0x8c, 0xdc, 0xad, 0x92, 0xb8, 0xcf, 0x5b, 0x83, 0x7f, 0x78, 0xa2, 0xd9, 0xe3, 0x70, 0x70, 0x3a} }
+	sum := func(b byte) []byte {
+		return []byte{b, 0x0d, 0xe6, 0xf4, 0x8c, 0xdc, 0xad, 0x92, 0xb8, 0xcf, 0x5b, 0x83, 0x7f, 0x78, 0xa2, 0xd9, 0xe3, 0x70, 0x70, 0x3a}
+	}
 	base := func(apks []apkT, fs []fsEnt) genIn {
 		return genIn{Image: img, Layers: []hashT{l1}, OSVer: "20230201", Apks: apks, FS: fs}
 	}
@@ -855,7 +857,7 @@ func main() {
 	out := flag.String("out", "", "cases directory")
 	seed := flag.Uint64("seed", 1, "seed")
 	tier := flag.String("tier", "quick", "tier")
-	stage := flag.String("stage", "generate", "ident|generate|index|repl|copy")
+	stage := flag.String("stage", "generate", "ident|generate|index|repl|copy|e2e")
 	_ = flag.String("replay", "", "unused: cases are regenerated from the seed")
 	flag.Parse()
 	charmlog.SetOutput(io.Discard)
@@ -877,6 +879,8 @@ func main() {
 		err = replStage(*out, *seed, *tier)
 	case "copy":
 		err = copyStage(*out, *seed, *tier)
+	case "e2e":
+		err = e2eStage(*out, *seed, *tier)
 	default:
 		err = fmt.Errorf("unknown stage %q", *stage)
 	}
